@@ -27,14 +27,19 @@ Chk(cond, rec, what, extra) == cond \/ Say(rec, "fail", what, extra)
 EndsWith(w, suf) == Len(suf) <= Len(w) /\ \A i \in 1 .. Len(suf) : w[Len(w) - Len(suf) + i] = suf[i]
 
 \* ---- the property (C18), on one recorded answer
+\* Exact(x): the structural bounds of Regex.tla are exact for x (no assertion, no empty class), so a matched word of
+\* length TrueMin(x) - and of length TrueMax(x) when finite - exists even when it is longer than L
+Exact(x) == Relax(x) = x
 \* every matched word is at least min long
-MinContains(rec, ls)   == \A k \in ls : rec.min # Inf /\ rec.min <= k
+MinContains(rec, ls, tmin) == /\ \A k \in ls : rec.min # Inf /\ rec.min <= k
+                              /\ Exact(rec.ast) => (rec.min # Inf /\ rec.min <= tmin)
 \* ... and at most max long
-MaxContains(rec, ls)   == \A k \in ls : rec.max = Inf \/ k <= rec.max
+MaxContains(rec, ls, tmax) == /\ \A k \in ls : rec.max = Inf \/ k <= rec.max
+                              /\ Exact(rec.ast) => (rec.max = Inf \/ (tmax # Inf /\ tmax <= rec.max))
 \* a finite bound is the length of some matched word.  Decided on Lang when the bound is within the
 \* word length L; beyond it by the structural value, which is exact for expressions without assertions
 \* and without empty classes (Relax(x) = x); no claim for the other expressions beyond L.
-Attained(x, ls, v, tv) == v # Inf => IF v <= L THEN v \in ls ELSE (Relax(x) # x \/ v = tv)
+Attained(x, ls, v, tv) == v # Inf => IF v <= L THEN v \in ls ELSE (~Exact(x) \/ v = tv)
 \* every matched word ends with the computed suffix
 SuffixHolds(rec, lang) == \A w \in lang : EndsWith(w, rec.suffix)
 
@@ -57,10 +62,10 @@ RowOK(rec) ==
        /\ Chk(rec.errlen = "", rec, "LenError", rec.errlen)
        /\ Chk(rec.errsuf = "", rec, "SuffixError", rec.errsuf)
        /\ rec.errlen = "" =>
-            /\ Chk(MinContains(rec, ls), rec, "MinTooLarge", Witness({w \in lang : rec.min = Inf \/ Len(w) < rec.min}))
-            /\ Chk(MaxContains(rec, ls), rec, "MaxTooSmall", Witness({w \in lang : rec.max # Inf /\ Len(w) > rec.max}))
-            /\ MinContains(rec, ls) => Chk(Attained(x, ls, rec.min, tmin), rec, "MinNotAttained" \o Regime(x, rec.min), tmin)
-            /\ MaxContains(rec, ls) => Chk(Attained(x, ls, rec.max, tmax), rec, "MaxNotAttained" \o Regime(x, rec.max), tmax)
+            /\ Chk(MinContains(rec, ls, tmin), rec, "MinTooLarge", Witness({w \in lang : rec.min = Inf \/ Len(w) < rec.min}))
+            /\ Chk(MaxContains(rec, ls, tmax), rec, "MaxTooSmall", Witness({w \in lang : rec.max # Inf /\ Len(w) > rec.max}))
+            /\ MinContains(rec, ls, tmin) => Chk(Attained(x, ls, rec.min, tmin), rec, "MinNotAttained" \o Regime(x, rec.min), tmin)
+            /\ MaxContains(rec, ls, tmax) => Chk(Attained(x, ls, rec.max, tmax), rec, "MaxNotAttained" \o Regime(x, rec.max), tmax)
        /\ rec.errsuf = "" =>
             Chk(SuffixHolds(rec, lang), rec, "SuffixNotSuffix", Witness({w \in lang : ~EndsWith(w, rec.suffix)}))
        \* witnesses that the predicates were not vacuous on this row (counted by the runner)
